@@ -115,6 +115,12 @@ def scorer_cases(draw, tier):
         case["X"] = [[max(-40.0, min(40.0, v)) + level for v in row] for row in X]
         case["int_original"] = int_dtype if level <= 30000 or int_dtype != "int16" else "int32"
         return case
+    if p >= 2 and draw(st.integers(0, 3)) == 0:
+        # columns in mixed units and on different levels (a pressure in Pa next to a displacement in m): one big column, at a
+        # generated place, the others small; the comparison is then made column by column (per-column rounding-error bounds)
+        big = draw(st.integers(0, p - 1))
+        case["col_affine"] = {"scale": [draw(st.sampled_from([10.0, 1e3])) if j == big else draw(st.sampled_from([0.05, 1.0])) for j in range(p)],
+                              "level": [draw(st.sampled_from([101325.0, 1e5, 3e6])) if j == big else draw(st.sampled_from([0.0, 0.5])) for j in range(p)]}
     case["X"], _ = draw(D.structured_matrix(n, p, exact=False, min_noise_scale=1e-2))  # bulk data last (strategies/data.py)
     return case
 
@@ -176,6 +182,8 @@ def check_scorer(case):
     _, k, _ = SCORERS[name]
     X = np.asarray(case["X"], dtype=float)
     n, p = X.shape
+    if case.get("col_affine"):
+        X = X * np.asarray(case["col_affine"]["scale"], dtype=float) + np.asarray(case["col_affine"]["level"], dtype=float)
     t = case["t"]
     spec, spec_t = scorer_spec(name, p), scorer_spec(name, p, t)
     if spec_t != spec:
@@ -230,9 +238,18 @@ def check_scorer(case):
         want = a[:, t["perm"]]
     else:
         want = a
+    if a.shape[1] == p and p > 1 and t["kind"] in ("permute", "shift") and "Cov" not in name and "fixed" not in name:
+        # one output column per data column: every column is compared within the rounding-error bound of ITS OWN magnitude
+        # (column i of the transformed run holds the data of original column perm[i])
+        src = list(t["perm"]) if t["kind"] == "permute" else list(range(p))
+        per_col = [scorer_tolerance(name, X[:, [src[i]]], Xt[:, [i]], case["cuts"], cuts_t.tolist(), n) for i in range(p)]
+        if any(v is None for v in per_col):
+            return {"nontrivial": False, "classes": classes + ["near_degenerate_skipped"]}
+        tol = np.asarray(per_col, dtype=float)
+        classes.append("per_column_tolerance")
     if want.shape != b.shape or np.any(np.abs(b - want) > tol + 1e-9 * (1 + np.abs(want))):
         raise Violation(f"scorer output does not respect the {t['kind']} symmetry", scorer=name, transformation=t,
-                        original=want.tolist(), transformed=b.tolist(), tolerance=float(tol))
+                        original=want.tolist(), transformed=b.tolist(), tolerance=np.asarray(tol).tolist())
     if case.get("int_original"):
         classes.append("integer_typed_original")
     return {"nontrivial": not is_identity(t, p), "classes": classes}
